@@ -66,6 +66,10 @@ def _after(ctx, rate, exc):
     obs.ev("charge_calls_judged")
     c1, _, _, pw = battery_state(b)
     tol_r = 1e-9 * max(1.0, p_f)
+    if cap is not None:
+        # the rate is an energy difference divided by (V*T): rounding in that difference is of the order of eps*capacity, which
+        # short periods and low voltages amplify (measured on the unchanged tree: 3e-10 A at cap 1e3, T 0.1 min, V 100)
+        tol_r += 64 * 2.3e-16 * float(cap) * 6e4 / (float(T) * float(V))
     wit = dict(cls=type(b).__name__, pilot=p_f, voltage=V, period=T, rate=rate, charge_before=c0,
                charge_after=c1, capacity=cap, max_power=mp, power=pw,
                noise=getattr(b, "_noise_level", None), tsoc=getattr(b, "_transition_soc", None),
